@@ -4,6 +4,7 @@ from pony.py23compat import PY38
 import ast
 
 from functools import update_wrapper
+from threading import Lock
 
 from pony.utils import HashableDict, throw, copy_ast
 
@@ -441,22 +442,29 @@ class PreTranslator(ASTTranslator):
         = postAdd = postSub = postMult = postMatMult = postDiv = postFloorDiv = postMod = post_binop
 
 extractors_cache = {}
+extractors_lock = Lock()
 
 def create_extractors(code_key, tree, globals, locals, special_functions, const_functions, outer_names=()):
     result = extractors_cache.get(code_key)
     if not result:
-        pretranslator = PreTranslator(tree, globals, locals, special_functions, const_functions, outer_names)
-        extractors = {}
-        for node in pretranslator.externals:
-            src = node.src = ast2src(node)
-            if src == '.0':
-                def extractor(globals, locals):
-                    return locals['.0']
-            else:
-                filename = '<pony ' + src + '>'
-                code = compile(src, filename, 'eval')
-                def extractor(globals, locals, code=code):
-                    return eval(code, globals, locals)
-            extractors[src] = extractor
-        result = extractors_cache[code_key] = tree, extractors
+        # The tree comes from a process-wide cache (decompiler / string2ast) and PreTranslator annotates its
+        # nodes in place: two threads that meet a new query at the same time must not do that concurrently
+        # (the other one would pickle or translate a half-annotated tree)
+        with extractors_lock:
+            result = extractors_cache.get(code_key)
+            if result: return result
+            pretranslator = PreTranslator(tree, globals, locals, special_functions, const_functions, outer_names)
+            extractors = {}
+            for node in pretranslator.externals:
+                src = node.src = ast2src(node)
+                if src == '.0':
+                    def extractor(globals, locals):
+                        return locals['.0']
+                else:
+                    filename = '<pony ' + src + '>'
+                    code = compile(src, filename, 'eval')
+                    def extractor(globals, locals, code=code):
+                        return eval(code, globals, locals)
+                extractors[src] = extractor
+            result = extractors_cache[code_key] = tree, extractors
     return result
